@@ -13,6 +13,7 @@ import (
 	"os/exec"
 	"path/filepath"
 	"sort"
+	"strconv"
 	"strings"
 	"sync"
 	"testing"
@@ -78,6 +79,19 @@ func TestVerifC05Child(t *testing.T) {
 	var bks []*bk
 	pops := c05pops()
 	prefix := 0x100 + rng.Intn(0x100)
+	// small files: the bucket stored last (highest prefix) holds 1, 2 or 3 hashes, i.e. the file ends 12, 20 or 28 bytes
+	// after that bucket starts; the first prefix of the space is populated too
+	tail, _ := strconv.Atoi(os.Getenv("VERIF_C05_SMALL"))
+	if tail > 0 {
+		pops = nil
+		for i, pf := range []int{0x0000, 0x0101, 0x7fff, 0xfffe, 0xffff} {
+			b := &bk{prefix: pf}
+			for k := 0; k < []int{2, 1, 3, 1, tail}[i]; k++ {
+				b.sigs = append(b.sigs, c05sig(rng, pf))
+			}
+			bks = append(bks, b)
+		}
+	}
 	for rep := 0; rep < 2; rep++ {
 		for _, n := range pops {
 			b := &bk{prefix: prefix}
@@ -94,6 +108,9 @@ func TestVerifC05Child(t *testing.T) {
 		heavy = 40_000
 	}
 	for _, pf := range []int{prefix + 5, 0xFFFE} {
+		if tail > 0 {
+			break
+		}
 		b := &bk{prefix: pf}
 		for i := 0; i < heavy; i++ {
 			b.sigs = append(b.sigs, c05sig(rng, pf))
@@ -108,6 +125,9 @@ func TestVerifC05Child(t *testing.T) {
 	fill := 20_000
 	if !vt.Quick() {
 		fill = 150_000
+	}
+	if tail > 0 {
+		fill = 0
 	}
 	used := map[int]bool{}
 	for _, b := range bks {
@@ -347,10 +367,16 @@ func c05dump(raw []byte, prefix int, added map[uint64]bool) []int {
 func TestVerifC05(t *testing.T) {
 	out := vt.Out(t)
 	defer out.Close()
+	type run struct{ format, small string }
+	var runs []run
 	for _, format := range []string{"current", "deprecated"} {
+		runs = append(runs, run{format, ""}, run{format, "1"}, run{format, "2"}, run{format, "3"})
+	}
+	for _, r := range runs {
+		format := r.format
 		childOut := filepath.Join(t.TempDir(), "obs.ndjson")
 		cmd := exec.Command(os.Args[0], "-test.run=^TestVerifC05Child$", "-test.timeout=30m")
-		cmd.Env = append(os.Environ(), "VERIF_C05_FORMAT="+format, "VERIF_OUT="+childOut)
+		cmd.Env = append(os.Environ(), "VERIF_C05_FORMAT="+format, "VERIF_C05_SMALL="+r.small, "VERIF_OUT="+childOut)
 		b, err := cmd.CombinedOutput()
 		if err != nil {
 			tail := string(b)
